@@ -342,24 +342,28 @@ Definition calls_of_flow (l : list F.idp_call) : list call := map CIdp l.
    because the handler is only ever entered behind the gates of its route. One branch AuthFlow
    leaves out is reachable (AuthGates has it): url.ParseQuery of the redirect's own query fails
    in getAuthCodeRedirectURL -> 500, after authenticate has already re-saved the cookie. *)
+Definition of_flow_sign_in (r : B.request) (query_ok : bool) (uri : str) (ran : option handler)
+    (fr : F.response) : response :=
+  let cs := calls_of_flow (F.r_calls fr) in
+  match F.r_code fr with
+  | Some s =>
+      if query_ok then mk 302 (LCode uri s) (F.r_ops fr) [] cs BRedirect ran
+      else err_with r 500 (F.r_ops fr) [] cs ran
+  | None =>
+      match F.r_body fr with
+      | F.BodySignInPage => mk (F.r_status fr) LNone (F.r_ops fr) [] cs BSignInPage ran
+      | _ => err_with r (F.r_status fr) (F.r_ops fr) [] cs ran
+      end
+  end.
+
 Definition h_sign_in (d : deployment) (slug : str) (p : F.pkind) (q : request) (o : oracles)
     (an : answers) (now_s : Z) : hfun := fun r fs =>
   let fm := B.form_of (fst (B.parse_form r fs)) in
   let uri := B.form_get k_redirect_uri fm in
   let ck := cookie_of d o (lookup slug (q_sess q)) in
-  let fr := F.sign_in lower (fcfg d) p now_s (F.mkSI true true true true (B.form_get k_state fm)) ck
-                      (an_refresh an) (an_validate an) in
-  let cs := calls_of_flow (F.r_calls fr) in
-  match F.r_code fr with
-  | Some s =>
-      if o_query_ok o uri then mk 302 (LCode uri s) (F.r_ops fr) [] cs BRedirect (Some HSignIn)
-      else err_with r 500 (F.r_ops fr) [] cs (Some HSignIn)
-  | None =>
-      match F.r_body fr with
-      | F.BodySignInPage => mk (F.r_status fr) LNone (F.r_ops fr) [] cs BSignInPage (Some HSignIn)
-      | _ => err_with r (F.r_status fr) (F.r_ops fr) [] cs (Some HSignIn)
-      end
-  end.
+  of_flow_sign_in r (o_query_ok o uri) uri (Some HSignIn)
+    (F.sign_in lower (fcfg d) p now_s (F.mkSI true true true true (B.form_get k_state fm)) ck
+               (an_refresh an) (an_validate an)).
 
 (* SignOut + SignOutPage, authenticator.go:366-455 — the part of SignOut.auth_sign_out behind
    its gates (proved equal to it there in AuthAll_proofs.v); reads req.Form without parsing *)
@@ -404,13 +408,15 @@ Definition start_request_of (d : deployment) (o : oracles) (now_ns : Z) (r : B.r
       end
   end.
 
-Definition h_start (d : deployment) (o : oracles) (an : answers) (now_ns : Z) : hfun := fun r fs =>
-  let sr := F.oauth_start (an_nonce an) (start_request_of d o now_ns r) in
+Definition of_flow_start (r : B.request) (ran : option handler) (sr : F.start_response) : response :=
   let co := F.start_set_cookies sr in
   match F.sr_state sr with
-  | Some st => mk 302 (LIdP st) [] co [] BRedirect (Some HStart)
-  | None => err_with r (F.sr_status sr) [] co [] (Some HStart)
+  | Some st => mk 302 (LIdP st) [] co [] BRedirect ran
+  | None => err_with r (F.sr_status sr) [] co [] ran
   end.
+
+Definition h_start (d : deployment) (o : oracles) (an : answers) (now_ns : Z) : hfun := fun r fs =>
+  of_flow_start r (Some HStart) (F.oauth_start (an_nonce an) (start_request_of d o now_ns r)).
 
 (* getOAuthCallback + OAuthCallback: AuthFlow.oauth_callback with the state decoded by
    SignOut's concrete base64.URLEncoding decoder, the redirect re-validated by AuthGates'
@@ -420,19 +426,21 @@ Definition cb_request_of (d : deployment) (slug : str) (q : request) (fm : B.for
          (S.b64_decode (B.form_get k_state fm)) (lookup slug (q_csrf q))
          (fun u => G.valid_redirect_uri u (root_domains d)).
 
+Definition of_flow_callback (r : B.request) (ran : option handler) (cr : F.cb_response) : response :=
+  let cs := calls_of_flow (F.cr_calls cr) in
+  let co := F.callback_set_cookies cr in
+  match F.cr_saved cr, F.cr_location cr with
+  | Some s, Some redirect => mk 302 (LVerbatim redirect) [F.OpSet s] co cs BRedirect ran
+  | _, _ => err_with r (F.cr_status cr) [] co cs ran
+  end.
+
 Definition h_callback (d : deployment) (slug : str) (p : F.pkind) (q : request) (an : answers)
     (now_s : Z) : hfun := fun r fs =>
   let '(fs', e) := B.parse_form r fs in
   if e then err_with r 500 [] [] [] (Some HCallback)
   else
     let rq := cb_request_of d slug q (B.form_of fs') in
-    let cr := F.oauth_callback lower (fcfg d) now_s rq (rd_of p an (F.cb_code rq)) in
-    let cs := calls_of_flow (F.cr_calls cr) in
-    let co := F.callback_set_cookies cr in
-    match F.cr_saved cr, F.cr_location cr with
-    | Some s, Some redirect => mk 302 (LVerbatim redirect) [F.OpSet s] co cs BRedirect (Some HCallback)
-    | _, _ => err_with r (F.cr_status cr) [] co cs (Some HCallback)
-    end.
+    of_flow_callback r (Some HCallback) (F.oauth_callback lower (fcfg d) now_s rq (rd_of p an (F.cb_code rq))).
 
 (* Redeem / Refresh / GetProfile / ValidateToken: AuthBack.run_handler *)
 Definition call_of_back (c : B.pcall) : list call :=
